@@ -77,11 +77,28 @@ FORMS = [
     ('entity.lower', 'H', '&dtml.html_quote.lower-x;',
      lambda v: v.lower() == v),
     ('hq-fmt-s', 'H', '<dtml-var x fmt="%s" html_quote>', None),
+    # further modifiers that are the identity on the value and on its
+    # escaped form (the escape sequences contain no quote, no '_', no run of
+    # four digits and no line end)
+    ('hq-sql', 'H', '<dtml-var x html_quote sql_quote>',
+     lambda v: not any(c in v for c in "'\x00\x1a\r")),
+    ('hq-commas', 'H', '<dtml-var x thousands_commas html_quote>',
+     lambda v: not any(c.isdigit() for c in v)),
+    ('hq-br', 'H', '<dtml-var x html_quote newline_to_br>',
+     lambda v: '\n' not in v and '\r' not in v),
+    ('hq-spacify-sql-lower', 'H',
+     '<dtml-var x lower sql_quote spacify html_quote>',
+     lambda v: v.lower() == v and '_' not in v and
+     not any(c in v for c in "'\x00\x1a\r")),
+    ('entity.sql', 'H', '&dtml.html_quote.sql_quote-x;',
+     lambda v: not any(c in v for c in "'\x00\x1a\r")),
 ]
 PLAIN = [('plain', 'H', '<dtml-var x>'), ('plain-expr', 'H', '<dtml-var "x">'),
          ('plain-epfs', 'S', '%(x)s'), ('plain-ssi', 'H', '<!--#var x-->')]
 BYTES_FORMS = ['entity', 'var-hq', 'expr-hq', 'fmt', 'entity.hq', 'hq-size',
-               'hq-missing', 'ssi-hq', 'epfs-hq']
+               'hq-missing', 'ssi-hq', 'epfs-hq', 'hq-spacify', 'hq-sql',
+               'hq-commas', 'hq-br', 'hq-lower', 'hq-spacify-sql-lower',
+               'entity.sql']
 
 
 def check_value(acc, v, forms=None, case_tag='str', count=True):
@@ -145,6 +162,8 @@ def check_bytes(acc, v, enc):
     n = 0
     for name, kind, src, app in FORMS:
         if name not in BYTES_FORMS:
+            continue
+        if app is not None and not app(v):
             continue
         n += 1
         case = ['bytes', v, enc, name]
